@@ -318,6 +318,8 @@ def cmp_c03_code(acc, V, src, fileid, crec, co, opc, insts):
             acc.count("c03_oracle_unresolved:" + name)
             continue
         acc.evaluations += 1
+        if arg and arg > 255:
+            acc.count("c03_operands_resolved:" + ("256-32767" if arg < 32768 else "32768-65535" if arg < 65536 else ">=65536"))
         try:
             oav = argval_canon(x, V)
         except Exception as e:
